@@ -26,6 +26,7 @@ func VerifH_C03_postprocessor_stop() {
 		s := models.NewItem("seed-1", &models.URL{Raw: "http://x.example/"}, "")
 		s.SetStatus(models.ItemCompleted) // passes through without payload work
 		in <- s
+		verifrt.Settle() // native replay: let the worker take the seed and reach the hand-off
 		stuck = outCap == 0
 		verifrt.Cover("seed-in-flight")
 	}
